@@ -88,7 +88,14 @@ impl Acc {
     }
     pub fn sample(&mut self, max: usize, f: impl FnOnce() -> Value) {
         if self.samples.len() < max {
-            self.samples.push(f());
+            let v = f();
+            // keep the evidence readable: a sample of a giant input is recorded by its size only
+            let text = v.to_string();
+            if text.len() > 6000 {
+                self.samples.push(json!({"sample_too_large_to_print_bytes": text.len(), "head": text.chars().take(300).collect::<String>()}));
+            } else {
+                self.samples.push(v);
+            }
         }
     }
     pub fn violation(&mut self, sig: impl Into<String>, size: usize, desc: impl FnOnce() -> (String, Value)) {
